@@ -422,6 +422,10 @@ func (table *Table) Del(primaryKey []byte) error {
 	}
 	//copy row
 	delrow := *row
+	if incache && row.old != nil {
+		// a pending update: the database still holds the indexes of the old data
+		delrow.Data = row.old
+	}
 	delrow.Ty = Del
 	table.addRowCache(&delrow)
 	return nil
